@@ -12,6 +12,10 @@ class WorkerStateDeepcopy:
     def ensures_equal(old, self, result):
         return same(result, self)
 
+    def native_no_sharing(old, self, result):
+        # a deep copy: no list / dict / mutable record is reachable from both the copy and the original
+        return no_shared_mutables(result, self, ("StepConfig", "InternalStepConfig", "BrokerConfig"))
+
 
 @contract("workflows.runtime.types.internal_state.InProgressState._deepcopy")
 class InProgressDeepcopy:
@@ -20,6 +24,10 @@ class InProgressDeepcopy:
 
     def ensures_equal(old, self, result):
         return same(result, self)
+
+    def native_no_sharing(old, self, result):
+        # a deep copy: no list / dict / mutable record is reachable from both the copy and the original
+        return no_shared_mutables(result, self, ("StepConfig", "InternalStepConfig", "BrokerConfig"))
 
 
 @contract("workflows.runtime.types.results.StepWorkerState._deepcopy")
@@ -31,6 +39,10 @@ class StepWorkerStateDeepcopy:
     def ensures_equal(old, self, result):
         return same(result, self)
 
+    def native_no_sharing(old, self, result):
+        # a deep copy: no list / dict / mutable record is reachable from both the copy and the original
+        return no_shared_mutables(result, self, ("StepConfig", "InternalStepConfig", "BrokerConfig"))
+
 
 @contract("workflows.runtime.types.internal_state.BrokerState.deepcopy")
 class BrokerStateDeepcopy:
@@ -39,3 +51,7 @@ class BrokerStateDeepcopy:
 
     def ensures_equal(old, self, result):
         return same(result, self)
+
+    def native_no_sharing(old, self, result):
+        # a deep copy: no list / dict / mutable record is reachable from both the copy and the original
+        return no_shared_mutables(result, self, ("StepConfig", "InternalStepConfig", "BrokerConfig"))
